@@ -133,7 +133,8 @@ def c15_plan(ctx, tier):
     q = tier == "quick"
     ctx.mc_replay("io", "MC_IO.tla", "MC_IO.cfg", "fam_io.json", ["C15"], replaycmd="replayio", timeout=3000)
     ctx.trace("iofuzz", ["C15"], cmd=["iofuzz", "-props", "C15", "-sessions", "30" if q else "400", "-calls", "10" if q else "25"], check_attrs=True, timeout=3000)
-    ctx.vh("cli", ["clicheck", "-n", "40" if q else "600"], timeout=3000)
+    import os
+    ctx.vh("cli", ["clicheck", "-repo", os.environ.get("VERIF_REPO", "/repo"), "-n", "40" if q else "600"], timeout=3000)
     return dict(rule=IO_RULE + "; clicheck builds cmd/sanitise_ugc and cmd/sanitise_html_email from /repo and compares stdout with the library "
                 "result of the harness' frozen copy of their documented policy", exhaustive=False, assumptions=ASSUME_COMMON)
 
